@@ -357,6 +357,11 @@ func ParseSliceHeader(nalu []byte, spsMap map[uint32]*SPS, ppsMap map[uint32]*PP
 		// Ceil( Log2( PicSizeInMapUnits ÷ SliceGroupChangeRate + 1 ) ) bits (Section 7.4.3), where
 		// PicSizeInMapUnits comes from the SPS and ÷ is division without rounding
 		picSizeInMapUnits := sps.picSizeInMapUnits()
+		if pps.SliceGroupChangeRateMinus1 >= picSizeInMapUnits {
+			// Range is 0 to PicSizeInMapUnits - 1 (Section 7.4.2.2). Must not wrap to a rate of 0 below
+			return nil, fmt.Errorf("slice_group_change_rate_minus1 %d is not less than PicSizeInMapUnits %d",
+				pps.SliceGroupChangeRateMinus1, picSizeInMapUnits)
+		}
 		sliceGroupChangeRate := pps.SliceGroupChangeRateMinus1 + 1
 		nrBits := bits.CeilLog2((picSizeInMapUnits+sliceGroupChangeRate-1)/sliceGroupChangeRate + 1)
 		sh.SliceGroupChangeCycle = uint32(r.Read(nrBits))
